@@ -46,27 +46,20 @@ Example C11_value_example :
   = Done ([(L1, IAlign 4)], [("A"%string, 5); ("B"%string, 13)]).
 Proof. vm_compute. reflexivity. Qed.
 
-(* character literals: the full statement is REFUTED on the faithful model (the lexer eats , # ( ) before the
-   expression is formed): D11 *)
-Definition C11_char_full : Prop :=
+(* character literals: every printable ASCII character c written 'c' evaluates to its code point, through the WHOLE
+   model path (lexer incl. the character-literal protection, parser, PyExpr, resolve_constants) -- kernel sweep of the
+   95 characters; the backslash, an escape introducer, is written '\\' (next theorem).  (Before the repair of D11 this
+   statement was refuted for , # ( ) -- the proof obligation that failed is how the defect was pinned down.) *)
+Theorem C11_char_full :
   forall c : Z, Z.le 32 c -> Z.le c 126 -> c <> 92 -> const_value_of_line (char_line c) = Some c.
-Theorem C11_char_refuted : ~ C11_char_full.
-Proof.
-  intros H. specialize (H 44). rewrite char_comma_is_32 in H.
-  assert (E : Some 32 = Some 44) by (apply H; [discriminate | discriminate | discriminate]). discriminate E.
-Qed.
-Print Assumptions C11_char_refuted.
-(* what the model does with the four characters *)
-Theorem C11_char_witnesses :
-  const_value_of_line (char_line 44) = Some 32 /\ const_value_of_line (char_line 35) = None /\
-  const_value_of_line (char_line 40) = None /\ const_value_of_line (char_line 41) = None.
-Proof. split; [exact char_comma_is_32 | exact char_hash_paren_rejected]. Qed.
-Print Assumptions C11_char_witnesses.
-(* every other printable character evaluates to its code point (the backslash is written '\\') *)
-Theorem C11_char_partial : forall c : Z, Z.le 32 c -> Z.le c 126 -> char_exception c = false ->
-  const_value_of_line (char_line c) = Some c.
-Proof. exact char_literals. Qed.
-Print Assumptions C11_char_partial.
+Proof. exact char_all. Qed.
+Print Assumptions C11_char_full.
+Theorem C11_char_former_exceptions :
+  const_value_of_line (char_line 44) = Some 44 /\ const_value_of_line (char_line 35) = Some 35 /\
+  const_value_of_line (char_line 40) = Some 40 /\ const_value_of_line (char_line 41) = Some 41 /\
+  const_value_of_line (char_line 32) = Some 32.
+Proof. exact char_former_exceptions. Qed.
+Print Assumptions C11_char_former_exceptions.
 Theorem C11_char_backslash : const_value_of_line (chars "X = " ++ [c_quote; c_bsl; c_bsl; c_quote]) = Some 92.
 Proof. exact char_backslash_escaped. Qed.
 Print Assumptions C11_char_backslash.
